@@ -556,7 +556,11 @@ EXPORT errno_t _wcsnorm_decompose_s_chk(wchar_t *restrict dest, rsize_t dmax,
         invoke_safe_str_constraint_handler("wcsnorm_s: "
                                            "src is null",
                                            dest, ESNULLP);
+#ifdef SAFECLIB_STR_NULL_SLACK
+        memset(dest, 0, dmax * sizeof(wchar_t));
+#else
         *dest = 0;
+#endif
         return RCNEGATE(ESNULLP);
     }
     if (destbos == BOS_UNKNOWN) {
